@@ -44,7 +44,7 @@ paths:
   /pets/{id}:
     parameters:
       - {name: id, in: path, required: true, schema: {type: integer, minimum: 1}}
-      - {name: X-Tenant, in: header, schema: {type: string, maxLength: 8, not: {enum: [root]}}}
+      - {name: X-Tenant, in: header, schema: {type: string, maxLength: 8}}
       - {name: fields, in: query, schema: {type: string, pattern: '^[a-z,]*$'}}
     get:
       operationId: getPet
